@@ -12,4 +12,5 @@ let table = [
   ("guards", Model.entry_guards);
   ("p2precv", Model.entry_p2precv);
   ("dispatch", Model.entry_dispatch);
+  ("abi", Model.entry_abi);
 ]
